@@ -1,0 +1,30 @@
+//go:build verif
+
+package prover
+
+import "bytes"
+
+// Ghost client code for /verif: compositions of functions under contract whose postconditions
+// state a property of the pair (write then read). Never part of a normal build.
+
+// verifRoundTrip writes ps in the compressed format and reads it back into ps2.
+func verifRoundTrip(ps *ProvingSystem, ps2 *ProvingSystem, buf *bytes.Buffer) error {
+	if _, err := ps.WriteTo(buf); err != nil {
+		return err
+	}
+	if _, err := ps2.UnsafeReadFrom(buf); err != nil {
+		return err
+	}
+	return nil
+}
+
+// verifRoundTripRaw does the same through the raw format.
+func verifRoundTripRaw(ps *ProvingSystem, ps2 *ProvingSystem, buf *bytes.Buffer) error {
+	if _, err := ps.WriteRawTo(buf); err != nil {
+		return err
+	}
+	if _, err := ps2.UnsafeReadFrom(buf); err != nil {
+		return err
+	}
+	return nil
+}
